@@ -44,6 +44,18 @@ CHECKS = {
                 technique="bounded exhaustive enumeration of registry values against an independent builder/reader of the documented JSON shape (refjson)",
                 text="For every enumerated registry the library's serde_json value must equal the hand-assembled documented shape (keys, lower-case tags, omission rules), both the library's and the documented JSON must deserialise to an equal registry, an independent reader must recover it, and the JSON and SCALE round trips must agree.",
                 note="refjson is hand-written from the shape documented in the property and README; bit-sequence keys bit_store_type / bit_order_type are accepted as documented by the crate's own tests."),
+    "C14": dict(cat="fault_enumeration", design="§4 C14", engine=ENGINE,
+                technique="exhaustive fault enumeration (all 1-fault and bounded 2-fault corruptions of valid encodings, all short byte strings, all value- and text-level JSON faults) run against the real decoders in child processes under a counting allocator",
+                text="For 19 seed encodings covering every definition kind: every truncation, bit flip, byte substitution, boundary-byte insertion, deletion, every compact-integer field overwritten with 18 compact patterns (size-class boundaries, 10^6, >u32, big-integer modes, non-minimal forms), all pairs of compact corruptions and of boundary substitutions on small seeds; all byte strings of length <= 2 (<= 3 thorough); JSON: every node replaced by 14 values, every key deleted / renamed / added, every text truncation and structural-character substitution, duplicated keys. Oracle per case: no panic, no abort (child process), peak allocation <= 256 KiB + 256 B per input byte, Ok => re-encode == consumed bytes, resolve is None (never panics) for out-of-range ids and answers for every id mentioned.",
+                note="The memory bound is a measured inequality with generous constants; at most two simultaneous faults."),
+    "C16": dict(cat="exploration", design="§4 C16", engine=ENGINE,
+                technique="exhaustive check of all ordered pairs of a generated table of type expressions (built-in constructors nested to depth 2 + U1) against a normal form computed from each type's source text",
+                text="~1.9k (quick) / ~3k (thorough) type expressions; for every ordered pair: == iff equal model normal form iff cmp == Equal iff equal type_id; partial_cmp consistent; cmp antisymmetric and transitive (sorted-order check); equal => equal DefaultHasher hash, equal Debug, equal type_info().",
+                note="Model identity = strip Box/Rc/Arc/&/&mut recursively at the top, Vec/VecDeque -> slice, String -> str, PhantomData<_> -> one identity, arguments untouched; computed by a small parser over stringify!(type). The universe crate is compiled without function merging."),
+    "C17": dict(cat="exploration", design="§4 C17", engine=ENGINE,
+                technique="exhaustive enumeration of builder call scripts (every legal call order, both forms, docs feature off and on) against an echo model, plus a PhantomData scan of every definition reachable from the type corpora",
+                text="24k scripts per build: every permutation of field setters (ty|compact over 5 kinds incl. PhantomData, name, type_name, docs|docs_always), composites with 0-3 fields, every permutation of variant setters (index, fields, discriminant, docs), every permutation of type setters incl. setters before path and repeated setters; compile-time and portable builders; two builds (docs off / on). Oracle: the built Type equals the supplied parts in order minus PhantomData members, docs kept iff always-variant or feature on. Corpus: no field or tuple member of any definition reachable from U1 and the U3 table is a PhantomData (decided from the member's own definition).",
+                note="Derive- and built-in-grammar corpora are scanned by the progs engine when built."),
     "C18": dict(cat="exploration", design="§4 C18", engine=ENGINE,
                 technique="exhaustive enumeration of all strings up to a length bound over a class-representative alphabet, all segment lists and replacement tables over representatives, against a hand-written DFA and list model",
                 text="All strings of length <= 7 (quick) / 8 (thorough) over a 10-symbol class-representative alphabet as single segments; all segment lists of length <= 3 (4) over 11 representative segments; Path::new over all ident x module-path combinations; new_with_replace over all replacement tables of <= 2 (3) entries. Oracle: DFA for (r#)?[A-Za-z_][A-Za-z0-9_]* and a list model for order / ident / namespace / display / first offending position / panic-iff-error.",
